@@ -56,6 +56,8 @@ def check_tables_not_mutated(ctx, rule):
         f = P.func(q)
         ctx.touch(q)
         n += 1
+        effects.RETURN_LEVELS.clear()
+        effects.RETURN_LEVELS.update(effects.return_levels(f.module.tree))  # the module's helpers that hand a table back
         fs = effects.analyse(f.node, [p for p in params if p in f.params])
         ctx.check(
             not fs, rule, q + ":caller's table", f.where(),
